@@ -50,7 +50,7 @@ PROFILE_NS = gen.profile(**dict(PROFILE_KW, p_nestedsync=0.12, w_stmt=dict(raise
 MONITORS = ("resume", "afterdone", "order", "orphans", "completion", "refeq")
 HOWS = ["call", "value", "yielded", "yielded_value"]
 
-DEEP_QUICK = [("chain", 20000), ("chain_item", 1500), ("fan", 10000), ("chain_struct", 5000), ("fan_item", 3000), ("comb", 300), ("ladder", 30), ("ladder", 400), ("ladder_ctx", 14), ("ladder_ctx", 60)]
+DEEP_QUICK = [("chain", 20000), ("chain_known", 25000), ("chain_item", 1500), ("fan", 10000), ("chain_struct", 5000), ("fan_item", 3000), ("comb", 300), ("ladder", 30), ("ladder", 400), ("ladder_ctx", 14), ("ladder_ctx", 60)]
 DEEP_THOROUGH = DEEP_QUICK + [("ladder", 60), ("ladder", 3000), ("ladder_ctx", 400), ("chain", 100000), ("chain", 250000), ("chain_item", 4000), ("fan", 60000), ("chain_struct", 50000), ("comb", 1500)]
 
 
@@ -185,6 +185,22 @@ def run_deep(unit, progress):
             bad.append(("resumed-while-uncomputed", k))
         return got[0] + 1
 
+    known = [asynq.ConstFuture(("known", j)) for j in range(48)]
+
+    @A()
+    def chain_known(k):
+        # every link awaits the next link, one request AND four dozen futures that are computed already (cache hits)
+        runs[k] += 1
+        it = harness.HItem(rt, 0, "d%d" % k, ("deep", k))
+        if k == 0:
+            v = yield [it] + known
+            return 0
+        t = chain_known.asynq(k - 1)
+        got = yield [t, it] + known
+        if not (t.is_computed() and it.is_computed()) or got[2] != ("known", 0) or got[-1] != ("known", 47):
+            bad.append(("resumed-while-uncomputed-or-with-wrong-values", k))
+        return got[0] + 1
+
     @A()
     def chain_struct(k):
         runs[k] += 1
@@ -287,6 +303,11 @@ def run_deep(unit, progress):
             detail = {"value": v, "bodies_not_run_once": sum(1 for r in runs[: n + 1] if r != 1)}
         elif shape == "chain_item":
             v = chain_item(n)
+            flushes = sum(1 for e in rt.log if e[0] == "flush_body")
+            ok = v == n and all(r == 1 for r in runs[: n + 1]) and flushes == 1
+            detail = {"value": v, "flushes": flushes, "expected_flushes": 1}
+        elif shape == "chain_known":
+            v = chain_known(n)
             flushes = sum(1 for e in rt.log if e[0] == "flush_body")
             ok = v == n and all(r == 1 for r in runs[: n + 1]) and flushes == 1
             detail = {"value": v, "flushes": flushes, "expected_flushes": 1}
